@@ -505,6 +505,9 @@ func (e *Engine) verifyFunc(fn *ssa.Function, c *Contract) (rep *FuncReport) {
 		rep.Returns++
 		// postconditions
 		env := s.specEnv("ensures")
+		if s.lastReturn != nil {
+			env.scope = s.lastReturn.Block()
+		}
 		env.results = results
 		if rs := fn.Signature.Results(); rs != nil {
 			for i := 0; i < rs.Len(); i++ {
